@@ -52,15 +52,14 @@ Definition dres_eqb (a b : dres) : bool :=
   | _, _ => false
   end.
 
-(* reading a style value: the parsers of Model/ImscWrite.v; tts:fontFamily, tts:opacity and tts:luminanceGain, whose value syntax is
-   not modelled, are looked up in the table the harness made by running the code's extract on every such attribute of the document
-   (equal values get equal numbers) *)
+(* reading a style value: the parsers of Model/ImscWrite.v; tts:fontFamily, whose value syntax is not modelled, is looked up in the
+   table the harness made by running the code's extract on every such attribute of the document (equal values get equal numbers) *)
 Fixpoint style_prop_of (l : list ((Z * list Z) * Z)) (q : qname) : option Z :=
   match l with
   | [] => None
   | (k, p) :: l' => if qname_eqb k q then Some p else style_prop_of l' q
   end.
-Definition opaque_prop (p : Z) : bool := (p =? P_FontFamily) || (p =? P_Opacity) || (p =? P_LuminanceGain).
+Definition opaque_prop (p : Z) : bool := (p =? P_FontFamily).
 Fixpoint opaque_lookup (t : list (qname * text * option Z)) (q : qname) (raw : text) : option Z :=
   match t with
   | [] => None
@@ -97,29 +96,24 @@ Definition spec_answers (x : xml) (tab : list (text * texpr)) (ts : list Q) : li
   List.map (presented (spec_tv x tab) x) ts.
 Definition O := TOffset.  Definition Ck := TClock.  Definition Cf := TClockFrames.
 
-(* ---- triggers of the recorded findings, per case ----------------------------------------------------- *)
-From TT Require Import Model.ImscTriggers.
-Definition case_trig_seq (x : xml) (tab : list (text * texpr)) : bool := trigger_seq_doc (spec_tv x tab) x.
-Definition case_trig_tick (x : xml) (tab : list (text * texpr)) : bool := trigger_tick x tab.
-
 (* ---- time expressions and parameters -------------------------------------------------------------------- *)
 Definition tres_eqb (a b : tres) : bool :=
   match a, b with TVal x, TVal y => Qeq_bool x y | TBad, TBad => true | TZeroDiv, TZeroDiv => true | _, _ => false end.
-Definition case_time (tr : option Z) (fr : option Q) (s : text) (expected : tres) : bool :=
+Definition case_time (tr : option Q) (fr : option Q) (s : text) (expected : tres) : bool :=
   tres_eqb (parse_time_x tr fr s) expected.
 (* S on the code's answer for a string printed from the grammar: the value of the expression, or rejection when the
    frames term is out of range *)
-Definition case_time_spec (tr : Z) (fr : Q) (e : texpr) (got : tres) : bool :=
+Definition case_time_spec (tr : Q) (fr : Q) (e : texpr) (got : tres) : bool :=
   wf_texpr e &&
-  match time_value fr (inject_Z tr) e, got with
+  match time_value fr tr e, got with
   | Some v, TVal w => Qeq_bool v w
   | None, TBad => true
   | _, _ => false
   end.
-Definition case_params (attrs : list (qname * text)) (fr : option Q) (tr : Z) : bool :=
-  oq_eqb (extract_frame_rate attrs) fr && (extract_tick_rate attrs =? tr).
-Definition case_params_spec (attrs : list (qname * text)) (fr : option Q) (tr : Z) : bool :=
-  match fr with Some f => Qeq_bool (spec_frame_rate attrs) f | None => false end && Qeq_bool (spec_tick_rate attrs) (inject_Z tr).
+Definition case_params (attrs : list (qname * text)) (fr : Q) (tr : Q) : bool :=
+  Qeq_bool (extract_frame_rate attrs) fr && Qeq_bool (extract_tick_rate attrs) tr.
+Definition case_params_spec (attrs : list (qname * text)) (fr : Q) (tr : Q) : bool :=
+  Qeq_bool (spec_frame_rate attrs) fr && Qeq_bool (spec_tick_rate attrs) tr.
 
 (* ---- S (styling) on the code's output --------------------------------------------------------------------------------------------
    [wftab]: the generator's table of (attribute, string, well-formed?) ; [valtab]: the number of the value that the code's own
